@@ -21,6 +21,7 @@ from ..cfg import CFG, branch_facts, guarded_by
 from ..core import (AnalysisError, call_name, const_str, dotted, find_calls,
                     is_self_attr, kwarg, last_attr, names_in, short, txt,
                     walk)
+from ..normalize import expand_locals
 
 ASSUMPTIONS = [
     "NOT decided: numerical equality of a computed feature with a fresh "
@@ -219,7 +220,7 @@ def r61(ctx, repo, instances):
             raise AnalysisError(f"{inst.label}: no feasible path through "
                                 f"its compute function")
         rk, rev = req_func_kind(repo, inst, resolver)
-        covered_dyn = False
+        covered_dyn_data = covered_dyn_recipes = False
         hashed = set()      # (kind, sec, key, 'value'|'presence')
         if rk == "value":
             for v, _ in rev.return_values:
@@ -227,7 +228,9 @@ def r61(ctx, repo, instances):
                 for rid in provs:
                     r = rev.reads[rid]
                     if r.kind == "feat-dyn" and not r.key.startswith("<"):
-                        covered_dyn = True
+                        covered_dyn_data = True
+                    if r.kind == "attr" and r.key == "hash()":
+                        covered_dyn_recipes = True
                     if r.kind in ("feat", "cfg"):
                         hashed.add((r.kind, r.sec, r.key, "value"))
                         hashed.add((r.kind, r.sec, r.key, "presence"))
@@ -257,9 +260,17 @@ def r61(ctx, repo, instances):
                 declared = (sec, key) in inst.cfg_keys or ident in hashed
                 what = f"{pres}config [{sec}] '{key}'"
             elif kind == "feat-dyn":
-                declared = covered_dyn or what_mode == "presence"
+                # features chosen at run time may be temporary (their data
+                # must be digested) or computed on demand by other recipes
+                # (the hash of each implementing recipe must be digested)
+                declared = (covered_dyn_data and covered_dyn_recipes) \
+                    or what_mode == "presence"
                 what = (f"{pres}features selected at run time "
                         f"(mm[<computed name>])")
+                if not declared and what_mode != "presence":
+                    what += (" – requirement function digests "
+                             f"{'their data' if covered_dyn_data else 'no data'}"
+                             f" and {'the implementing recipes' if covered_dyn_recipes else 'no recipe hashes'}")
             else:
                 declared = False
                 what = f"{pres}config [{sec}] key computed at run time"
@@ -619,6 +630,43 @@ def r65(ctx, repo):
            "data of every required feature is digested" if hit else
            "required feature data are not digested",
            node=hit or func, label="ingredient req_features")
+    # ... on every path through the loop body (a branch that digests
+    # something else instead – e.g. a cached hash of an upstream ancillary
+    # feature, which is not re-validated by merely hashing it – leaves a
+    # stale upstream value undetected)
+    hcfg = CFG(func)
+    for lp in lf:
+        var = lp.target.id if isinstance(lp.target, ast.Name) else None
+
+        def digests_data(n_):
+            if n_.ast is None or n_.kind != "stmt":
+                return False
+            for c_ in ast.walk(n_.ast):
+                if isinstance(c_, ast.Call) and last_attr(c_) == "update":
+                    for a_ in c_.args:
+                        src_ = expand_locals(func, a_)
+                        if f"{ds}[{var}]" in src_:
+                            return True
+            return False
+        ok = True
+        for hid in hcfg.ids_of(lp):
+            body_first = [b for (b, l) in hcfg.succ[hid] if l == "T"]
+            for b in body_first:
+                if digests_data(hcfg.nodes[b]):
+                    continue
+                r = hcfg.reach([b], avoid_node=digests_data,
+                               avoid_edge=lambda s_, l_, d_: l_ == "x",
+                               include_sources=True)
+                if hid in r:
+                    ok = False
+        ctx.ob("R6.5", ok,
+               "every path through the feature loop digests the feature's "
+               "own data" if ok else
+               "a path through the feature loop does not digest the "
+               "feature's data (e.g. it digests a cached upstream hash "
+               "instead): an upstream change that has not been re-read is "
+               "not noticed", node=lp, label="req_features digested on all "
+               "paths")
     # config
     lc = loops_over("req_config")
     hit = None
@@ -883,6 +931,17 @@ MUTANTS = [
      FA + "af_ml_class.py",
      ("idlist.append((feat, tdata, [c.hash(mm) for c in candidates]))",
       "idlist.append((feat, [c.hash(mm) for c in candidates]))"), "R6.1"),
+    ("hash: cached upstream hash instead of data (seeded C06_4)",
+     FA + "ancillary_feature.py",
+     ("            hasher.update(obj2bytes(rtdc_ds[col]))\n",
+      "            if col in rtdc_ds._ancillaries:\n"
+      "                hasher.update(obj2bytes(rtdc_ds._ancillaries[col][0]))\n"
+      "            else:\n"
+      "                hasher.update(obj2bytes(rtdc_ds[col]))\n"), "R6.5"),
+    ("ml_class: recipe identifiers instead of hashes (seeded C06_5)",
+     FA + "af_ml_class.py",
+     ("[c.hash(mm) for c in candidates]",
+      "[c.identifier for c in candidates]"), "R6.1"),
     ("core: cached shortcut in __contains__ (F06g returns)", CORE,
      ("            if feat in AncillaryFeature.feature_names:\n"
       "                # get all instance",
